@@ -255,3 +255,9 @@ def check(case, obs):
             exp = np.array(spec['events'], dtype=u).reshape((N, D))
             ok = bool(np.array_equal(got, exp))
         obs.claim('values', ok, lambda: 'float cells not bit-identical (dtype %s)' % fa.dtype)
+    if N and not spec.get('curated'):
+        snap = native(da).copy()
+        w = call(d.__setitem__, (0, 0), 1)          # the first sample is edited in place ...
+        d2 = call(FlowCal.io.FCSData, path)          # ... and the same, unchanged file is loaded again
+        obs.claim('values', not raised(d2) and np.array_equal(native(np.asarray(d2)).view(np.uint8), snap.view(np.uint8)),
+                  lambda: 'a second load of the unchanged file differs from the first load (first sample edited in place: %r)' % (w,))
